@@ -221,3 +221,10 @@ Proof. exact bulk_returns_last_F_block. Qed.
 
 Example C06_bulk_nonvacuous : length id9 = 9%nat /\ length (@y_start NumR id9 snap_ex) = (9 + 10 * 2)%nat.
 Proof. exact bulk_nonvacuous_proof. Qed.
+
+(* across updates: when the F an update returns is handed to the next update (of this or another mineral), the next
+   integration of F starts EXACTLY at the F block of the vector the previous integrator ended with *)
+Theorem C06_F_handover_between_updates : forall n chi (prev s' : @snapshot NumR) (y : list R),
+  length y = (9 + 10 * n)%nat ->
+  @ev_F NumR (@y_start NumR (fst (@update NumR n chi prev y)) s') = firstn 9 y.
+Proof. exact F_handover. Qed.
